@@ -182,6 +182,17 @@ def check(ctx):
     ctx.ob("TAB.npy-stack.info", w, "info file: writer stores {chunks (rechunked), dtype, axis}; reader uses exactly these", ok, "" if ok else f"writer {wvals} vs reader {sorted(map(str, rkeys))}")
     ok = bool(find("pickle.dump(meta, f)", w)) and bool(find("info = pickle.load(f)", r)) and "os.path.join(dirname, 'info')" in unparse(w) and "os.path.join(dirname, 'info')" in unparse(r)
     ctx.ob("TAB.npy-stack.info-file", w, "both sides use <dirname>/info via pickle", ok)
+    # ---------------- large arguments (such as store targets) become Delayed with an identity (impure) name
+    na = mod.func("normalize_arg")
+    dl = [c for c in calls(na, "delayed")]
+    ok = len(dl) >= 2 and all(kwarg(c, "pure") is None and len(c.args) == 1 for c in dl)
+    ctx.ob("EFFECT.normalize-arg.impure", na, "normalize_arg wraps large arguments with delayed(x): a fresh name per object, never a content hash", ok, "" if ok else "large arguments are named by content (pure=True): two distinct store targets with equal contents share one key and only one of them is written")
+    ops = [c for c in calls(w, "open")]
+    ok = len(ops) == 1 and const(ops[0].args[1]) == "wb"
+    ctx.ob("TAB.npy-stack.info-mode", w, "to_npy_stack (re)writes the info file ('wb')", ok, "" if ok else "the info file is appended to: after a second to_npy_stack into the same directory from_npy_stack reads the stale first record")
+    ops = [c for c in calls(r, "open")]
+    ok = len(ops) == 1 and const(ops[0].args[1]) == "rb"
+    ctx.ob("TAB.npy-stack.info-mode", r, "from_npy_stack reads it ('rb')", ok)
 
 
 VARIANTS = [
